@@ -30,6 +30,8 @@ func runC05(c *Ctx) {
 	r.Rule("R4-verifier-shape", "verifier length constant in RFC 7636 range, unpadded URL-safe base64 of crypto/rand bytes", 4)
 	r.Rule("R5-redemption", "redeemed verifier is GetCodeVerifier() of the loaded CSRF cookie and reaches the token request as code_verifier in every Redeem implementation", 8)
 	r.Rule("R7-method-from-config", "ProviderData.CodeChallengeMethod is written only from the operator's option", 2)
+	r.Rule("R12-each-random-draw-tested", "NewCSRF hands out a CSRF object only where every encryption.Nonce call of the path had its own error tested nil (an empty OIDC nonce matches a token without nonce claim; round 8)", 1)
+	runNonceErrorsTested(c, "R12-each-random-draw-tested")
 	r.Rule("R10-alpha-providers-verbatim", "the structured configuration's providers reach Options.Providers as written; the legacy skip-nonce flag maps to the skip-nonce option", 2)
 	r.Rule("R11-queued-cookie-expiry-kept", "the Set-Cookie lines queued on a response (the expiry of the finished login's CSRF cookie among them) are never deleted or reassigned by hand (shared with C18.R1)", 1)
 	runQueuedCookiesUntouched(c, "R11-queued-cookie-expiry-kept")
